@@ -103,6 +103,11 @@ class ModulePrinter(ExpressionPrinter):
         # Yield nodes that are the sole node on the right hand side of an assignment do not need parens
         if isinstance(node.value, (ast.Yield, ast.YieldFrom)):
             self._yield_expr(node.value)
+        elif isinstance(node.value, ast.Tuple) and sys.version_info < (3, 9) and [n for n in node.value.elts if isinstance(n, ast.Starred)]:
+            # An unparenthesized tuple with a starred element is only allowed here from python 3.9
+            self.printer.delimiter('(')
+            self._testlist(node.value)
+            self.printer.delimiter(')')
         else:
             self._testlist(node.value)
 
